@@ -637,7 +637,10 @@ def correspondence(ctx, ncases, cap, per_file=400):
     ctx.cov["corr_error_branch_cases"] = sum(1 for c in cases if results[c["id"]]["kind"] >= 10)
     ctx.cov["corr_values_compared"] = sum(len(results[c["id"]]["data"]) for c in cases)
     ctx.cov["corr_operand_kinds"] = sorted(set("/".join(o["k"] for o in c["args"]) for c in cases))
-    ctx.obligation("corr:model-vs-implementation", not bad, "%d of %d cases disagree" % (len(bad), len(cases)), n=len(cases))
+    if len(cases) - len(bad):
+        ctx.obligation("corr:model-vs-implementation:agreeing-cases", True, "%d of %d cases agree exactly" % (len(cases) - len(bad), len(cases)), n=len(cases) - len(bad))
+    if bad:
+        ctx.obligation("corr:model-vs-implementation:disagreeing-cases", False, "%d of %d cases disagree" % (len(bad), len(cases)), n=len(bad))
     ctx.sample({"case": cases[0], "impl": {k: results[cases[0]["id"]][k] for k in ("kind", "shape")}, "agrees": verdict.get(cases[0]["id"])})
     # ---- genuine Field objects
     rbad = [t for t in resp.get("real_fields", []) if not same_obs(t["want"], t["got"])]
